@@ -15,6 +15,17 @@
   `suppress` block swallows).  The model consumes the answers in the same order and records the request it believes
   was made next to each answer (`Call`), so that the harness can compare requests as well as results.
 
+  Defect sites (`Variant` flags, collected in `Vs`; `.asFound` = the snapshot, `.repaired` = the repair):
+    zero / excl / cross        `_positive_number`: `not maximum` (F6), exclusive bounds (F7), "Minimum value" / "Maximum
+                               value" emitted without looking at the opposite bound (F6c) — all three repaired in /repo
+                               (dcc81d56, a84b690b, 2d700c38)
+    strCross                   `_positive_string`: the same crossing guard for lengths (F34, proposed_fixes/C03-F34.diff)
+    addProps                   the `additionalProperties` arm: `not value` vs `value is False` (F35)
+    tmplReq                    `_get_template_schema`: `required` = declared properties [+ undeclared required names] (F36)
+    minProps                   `_positive_object`: combinations smaller than `minProperties` (F37)
+    falseSchema                `cover_schema_iter(false)` covered like `true` vs nothing (F40)
+  The harness decides by witness on the real code which variant of each site the tree carries.
+
   Schemas are raw JSON objects (`SV.Json`, key order preserved), exactly as the Python code sees them.
   Numbers: the model covers integer-valued keywords (`num m 0`) and the draft-4 booleans; anything else that Python
   would do arithmetic on makes the model answer `Status.unsupported` (the harness then only replays the property).
@@ -396,34 +407,46 @@ def geOpt (n : Int) : Option Int → Bool
   | some lo => decide (n ≥ lo)
   | none => true
 
+/-- the crossing guard of the "Minimum value" / "Maximum value" emissions (site `vc`):
+    asFound: the value is emitted without looking at the opposite bound;
+    repaired: `if maximum is None or smallest <= maximum` / `… and (minimum is None or largest >= minimum)` -/
+def crossOk (vc : Variant) (within : Bool) : Bool :=
+  match vc with
+  | .asFound => true
+  | .repaired => within
+
 /-- the `if minimum is not None:` block: values and the local `seen` set -/
-def numLower (v : Variant) (minimum maximum multipleOf : Option Int) : List (Int × Desc) × List Int :=
+def numLower (vz vc : Variant) (minimum maximum multipleOf : Option Int) : List (Int × Desc) × List Int :=
   match minimum with
   | none => ([], [])
   | some mn =>
     let smallest := smallestOf mn multipleOf
     let larger := largerOf mn multipleOf
-    if !(larger == smallest) && (isAbsent v maximum || leOpt larger maximum) then
-      ([(smallest, .minimumValue), (larger, .nearBoundaryNumber)], [larger, smallest])
-    else ([(smallest, .minimumValue)], [smallest])
+    let first := crossOk vc (leOpt smallest maximum)
+    let seen1 : List Int := if first then [smallest] else []
+    let second := !(seen1.contains larger) && (isAbsent vz maximum || leOpt larger maximum)
+    ((if first then [(smallest, Desc.minimumValue)] else []) ++ (if second then [(larger, Desc.nearBoundaryNumber)] else []),
+     (if second then [larger] else []) ++ seen1)
 
 /-- the `if maximum is not None:` block -/
-def numUpper (minimum maximum multipleOf : Option Int) (seen : List Int) : List (Int × Desc) :=
+def numUpper (vc : Variant) (minimum maximum multipleOf : Option Int) (seen : List Int) : List (Int × Desc) :=
   match maximum with
   | none => []
   | some mx =>
     let largest := largestOf mx multipleOf
     let smaller := smallerOf mx multipleOf
-    (if seen.contains largest then [] else [(largest, Desc.maximumValue)]) ++
-    (if !((largest :: seen).contains smaller) && decide (smaller > 0) && geOpt smaller minimum
+    let first := !(seen.contains largest) && crossOk vc (geOpt largest minimum)
+    let seen' : List Int := if first then largest :: seen else seen
+    (if first then [(largest, Desc.maximumValue)] else []) ++
+    (if !(seen'.contains smaller) && decide (smaller > 0) && geOpt smaller minimum
      then [(smaller, Desc.nearBoundaryNumber)] else [])
 
 /-- boundary values of `_positive_number` (everything after the example / "Valid number" prologue) -/
-def numBoundary (vz vx : Variant) (k : NumKw) : List (Int × Desc) :=
+def numBoundary (vz vx vc : Variant) (k : NumKw) : List (Int × Desc) :=
   let mn := effMin vx k
   let mx := effMax vx k
-  let lo := numLower vz mn mx k.multipleOf
-  lo.1 ++ numUpper mn mx k.multipleOf lo.2
+  let lo := numLower vz vc mn mx k.multipleOf
+  lo.1 ++ numUpper vc mn mx k.multipleOf lo.2
 
 def truthyOpt : Option Json → Bool
   | some j => truthy j
@@ -468,12 +491,13 @@ def examplePrologue (kvs : List (String × Json)) (locOk : Json → Bool) : Opti
 def hasExamples (kvs : List (String × Json)) : Bool :=
   truthyOpt (getK kvs "example") || truthyOpt (getK kvs "examples") || truthyOpt (getK kvs "default")
 
-/-- `_positive_number`; `vz`: the zero-bound site (F6: `not maximum`), `vx`: the exclusive-bound site (F7) -/
-def positiveNumber (vz vx : Variant) (kvs : List (String × Json)) : Gen :=
+/-- `_positive_number`; `vz`: the zero-bound site (F6: `not maximum`), `vx`: the exclusive-bound site (F7),
+    `vc`: the crossing guard of the boundary values themselves (F6c) -/
+def positiveNumber (vz vx vc : Variant) (kvs : List (String × Json)) : Gen :=
   match parseNumKw kvs with
   | none => Gen.unsupported
   | some k =>
-    let boundary := Gen.emit ((numBoundary vz vx k).map fun (n, d) => GV.pos (.num n 0) d)
+    let boundary := Gen.emit ((numBoundary vz vx vc k).map fun (n, d) => GV.pos (.num n 0) d)
     if hasExamples kvs then
       match examplePrologue kvs (fun _ => true) with
       | none => Gen.unsupported
@@ -529,45 +553,68 @@ def leOptNat (n : Nat) : Option Nat → Bool
   | none => true
   | some m => decide (n ≤ m)
 
+/-- `not max_length` (as found: a `maxLength` of 0 reads as absent) vs `max_length is None` (site `vl`, F34) -/
+def maxAbsent (vl : Variant) (mx : Option Nat) : Bool :=
+  match vl with
+  | .asFound => isNoneOrZero mx
+  | .repaired => mx.isNone
+
+def geOptNat (n : Nat) : Option Nat → Bool
+  | none => true
+  | some m => decide (n ≥ m)
+
+/-- "Minimum length string" is emitted (site `vl`: with the crossing guard only if `min_length <= max_length`) -/
+def strLowerFirst (vl : Variant) (m : Nat) (mx : Option Nat) : Bool := crossOk vl (leOptNat m mx)
+
+/-- the near-boundary string above the minimum is emitted -/
+def strLowerSecond (vl : Variant) (m : Nat) (mx : Option Nat) : Bool :=
+  decide (m + 1 < BUFFER) && (maxAbsent vl mx || leOptNat (m + 1) mx)
+
 /-- the `if min_length is not None and min_length < BUFFER_SIZE:` block of `_positive_string` -/
-def strLower (kvs : List (String × Json)) (mn mx : Option Nat) : Gen :=
+def strLower (vl : Variant) (kvs : List (String × Json)) (mn mx : Option Nat) : Gen :=
   match mn with
   | none => Gen.nil
   | some m =>
     if m < BUFFER then
-      Gen.seq (askSchema (.obj (setKey "maxLength" (jnat m) kvs)) .minLengthString)
-        (if m + 1 < BUFFER && (isNoneOrZero mx || leOptNat (m + 1) mx) then
+      Gen.seq (if strLowerFirst vl m mx then askSchema (.obj (setKey "maxLength" (jnat m) kvs)) .minLengthString else Gen.nil)
+        (if strLowerSecond vl m mx then
            askSchema (.obj (setKey "maxLength" (jnat (m + 1)) (setKey "minLength" (jnat (m + 1)) kvs))) .nearBoundaryString
          else Gen.nil)
     else Gen.nil
 
 /-- the local `seen` set of `_positive_string` after the lower block -/
-def strLowerSeen (mn mx : Option Nat) : List Nat :=
+def strLowerSeen (vl : Variant) (mn mx : Option Nat) : List Nat :=
   match mn with
   | none => []
   | some m =>
     if m < BUFFER then
-      (if m + 1 < BUFFER && (isNoneOrZero mx || leOptNat (m + 1) mx) then [m + 1, m] else [m])
+      (if strLowerSecond vl m mx then [m + 1] else []) ++ (if strLowerFirst vl m mx then [m] else [])
     else []
 
 /-- the `if max_length is not None:` block -/
-def strUpper (kvs : List (String × Json)) (mn mx : Option Nat) (seen : List Nat) : Gen :=
+def strUpper (vl : Variant) (kvs : List (String × Json)) (mn mx : Option Nat) (seen : List Nat) : Gen :=
   match mx with
   | none => Gen.nil
   | some M =>
-    let first := M < BUFFER && !(seen.contains M)
+    let first := decide (M < BUFFER) && !(seen.contains M) && crossOk vl (geOptNat M mn)
     let seen' := if first then M :: seen else seen
     Gen.seq
       (if first then askSchema (.obj (setKey "minLength" (jnat M) kvs)) .maxLengthString else Gen.nil)
       (match M with
        | 0 => Gen.nil
        | s + 1 =>
-         if s < BUFFER && !(seen'.contains s) && s > 0 && (match mn with | none => true | some m => decide (s ≥ m)) then
+         if s < BUFFER && !(seen'.contains s) && s > 0 && geOptNat s mn then
            askSchema (.obj (setKey "maxLength" (jnat s) (setKey "minLength" (jnat s) kvs))) .nearBoundaryString
          else Gen.nil)
 
-/-- `_positive_string` -/
-def positiveString (ctx : Ctx) (kvs : List (String × Json)) : Gen :=
+/-- the lengths cross (`min_length > max_length`, both present) -/
+def lenCross (mn mx : Option Nat) : Bool :=
+  match mn, mx with
+  | some a, some b => decide (b < a)
+  | _, _ => false
+
+/-- `_positive_string`; `vl`: the crossing-length site (F34) -/
+def positiveString (vl : Variant) (ctx : Ctx) (kvs : List (String × Json)) : Gen :=
   match lenKw? kvs "minLength", lenKw? kvs "maxLength" with
   | some mn0, some mx =>
     let mn := if mn0 == some 0 then none else mn0
@@ -577,9 +624,9 @@ def positiveString (ctx : Ctx) (kvs : List (String × Json)) : Gen :=
          | none => Gen.unsupported
          | some gvs => Gen.emit gvs)
       else if mn.isNone && isNoneOrZero mx then askSchema (.obj kvs) .validString
-      else if hasKey kvs "pattern" then askSchema (.obj kvs) .validString
+      else if hasKey kvs "pattern" && crossOk vl (!(lenCross mn mx)) then askSchema (.obj kvs) .validString
       else Gen.nil
-    Gen.seq prologue (Gen.seq (strLower kvs mn mx) (strUpper kvs mn mx (strLowerSeen mn mx)))
+    Gen.seq prologue (Gen.seq (strLower vl kvs mn mx) (strUpper vl kvs mn mx (strLowerSeen vl mn mx)))
   | _, _ => Gen.unsupported
 
 /-! ## arrays -/
@@ -656,8 +703,23 @@ def requiredOf? (kvs : List (String × Json)) : Option (List String) :=
   | some (.arr xs) => strList? xs
   | some _ => none
 
+/-- the `minProperties` test of the combinations of `_positive_object` (site `vm`, F37): as found the keyword is not read -/
+def minPropsOk (vm : Variant) (minProps : Option Nat) (combo : List (String × Json)) : Bool :=
+  match vm, minProps with
+  | .repaired, some n => decide (combo.length ≥ n)
+  | _, _ => true
+
+/-- `schema.get("minProperties", 0)` as the repaired variant reads it; `none`: not a natural number -/
+def minPropsKw? (vm : Variant) (kvs : List (String × Json)) : Option (Option Nat) :=
+  match vm with
+  | .asFound => some none
+  | .repaired => lenKw? kvs "minProperties"
+
 /-- `_positive_object`; `rec` = cover_schema_iter on a property schema with the (positive-only) context -/
-def positiveObject (rec : Json → Gen) (kvs : List (String × Json)) (template : Json) : Gen :=
+def positiveObject (vm : Variant) (rec : Json → Gen) (kvs : List (String × Json)) (template : Json) : Gen :=
+  match minPropsKw? vm kvs with
+  | none => Gen.unsupported
+  | some mp =>
   match template, propsOf? kvs, requiredOf? kvs with
   | .obj tkvs, some ps, some required =>
     let prologue : Gen :=
@@ -670,12 +732,15 @@ def positiveObject (rec : Json → Gen) (kvs : List (String × Json)) (template 
     let optional := sortDedupe (names.filter fun n => !(required.contains n))
     let oneOptional : List GV := optional.filterMap fun name =>
       let combo := tkvs.filter fun (k, _) => required.contains k || k == name
-      if combo.length != tkvs.length then some (GV.pos (.obj combo) (.objectRequiredAnd name)) else none
-    let subsets : List GV := (selectCombinations optional).map fun sel =>
-      GV.pos (.obj (tkvs.filter fun (k, _) => required.contains k || sel.contains k)) .objectSubset
+      if combo.length != tkvs.length && minPropsOk vm mp combo then some (GV.pos (.obj combo) (.objectRequiredAnd name)) else none
+    let subsets : List GV := (selectCombinations optional).filterMap fun sel =>
+      let combo := tkvs.filter fun (k, _) => required.contains k || sel.contains k
+      if minPropsOk vm mp combo then some (GV.pos (.obj combo) .objectSubset) else none
     let onlyRequired : List GV :=
       if names.all (required.contains ·) && required.all (names.contains ·) then []
-      else [GV.pos (.obj (tkvs.filter fun (k, _) => required.contains k)) .objectOnlyRequired]
+      else
+        let combo := tkvs.filter fun (k, _) => required.contains k
+        if minPropsOk vm mp combo then [GV.pos (.obj combo) .objectOnlyRequired] else []
     Gen.seq prologue (Gen.seq (Gen.emit (oneOptional ++ subsets ++ onlyRequired))
       (Gen.forEach ps fun (name, sub) =>
         Gen.post (dedupeWrap name tkvs [.typed ((Json.lookup name tkvs).getD .null)]) (Gen.freshSeen (rec sub))))
@@ -707,16 +772,30 @@ def mapProps (f : Json → Option Json) : List (String × Json) → Option (List
     | some v', some rest' => some ((k, v') :: rest')
     | _, _ => none
 
+/-- the `required` list of the template schema (site `vt`, F36): as found `list(properties)`; repaired: followed by the
+    required names that are not declared under `properties`.  `none`: `required` is not a list of strings -/
+def templateRequired? (vt : Variant) (kvs ps : List (String × Json)) : Option (List Json) :=
+  let declared := ps.map fun (k, _) => Json.str k
+  match vt with
+  | .asFound => some declared
+  | .repaired =>
+    match Json.lookup "required" kvs with
+    | none => some declared
+    | some (.arr xs) =>
+      (strList? xs).map fun names => declared ++ (names.filter fun n => !(ps.any (·.1 == n))).map Json.str
+    | some _ => none
+
 /-- `_get_template_schema(schema, ty)`; `none`: outside the fragment (or nesting deeper than the fuel) -/
-def templateSchema : Nat → List (String × Json) → String → Option Json
+def templateSchema (vt : Variant) : Nat → List (String × Json) → String → Option Json
   | 0, _, _ => none
   | fuel + 1, kvs, ty =>
     if ty == "object" then
       match getK kvs "properties" with
       | some (.obj ps) =>
-        (mapProps (getProperties fun k => templateSchema fuel k "object") ps).map fun ps' =>
-          .obj (setKey "properties" (.obj ps') (setKey "type" (.str ty)
-            (setKey "required" (.arr (ps.map fun (k, _) => .str k)) kvs)))
+        match templateRequired? vt kvs ps, mapProps (getProperties fun k => templateSchema vt fuel k "object") ps with
+        | some req, some ps' =>
+          some (.obj (setKey "properties" (.obj ps') (setKey "type" (.str ty) (setKey "required" (.arr req) kvs))))
+        | _, _ => none
       | some _ => none
       | none => some (.obj (setKey "type" (.str ty) kvs))
     else some (.obj (setKey "type" (.str ty) kvs))
@@ -758,12 +837,12 @@ def negType (ctx : Ctx) (value : Json) : Gen :=
           else Gen.seq (Gen.emit [GV.neg v .incorrectType ctx.path]) (Gen.addSeen (.typed v))
 
 /-- `template = template or ctx.generate_from_schema(_get_template_schema(schema, "object"))` -/
-def needTemplate (kvs : List (String × Json)) (k : Json → Gen) : Gen :=
+def needTemplate (vt : Variant) (kvs : List (String × Json)) (k : Json → Gen) : Gen :=
   Gen.withTmpl fun t =>
     match (match t with | some t => if truthy t then some t else none | none => none) with
     | some t => k t
     | none =>
-      match templateSchema TFUEL kvs "object" with
+      match templateSchema vt TFUEL kvs "object" with
       | none => Gen.unsupported
       | some ts => Gen.ask (.schema ts) fun t => Gen.seq (Gen.setTmpl t) (k t)
 
@@ -810,6 +889,12 @@ def negLength (ctx : Ctx) (kvs : List (String × Json)) (n : Nat) (d : Desc) : G
     let s2 := if hasKey s1 "type" then s1 else s1 ++ [("type", .str "string")]
     Gen.guard (Gen.ask (.schema (.obj s2)) fun v => emitUnseen v d ctx)
 
+/-- the test of the `additionalProperties` arm on the keyword's value -/
+def addPropsForbidden (va : Variant) (value : Json) : Bool :=
+  match va with
+  | .asFound => !(truthy value)
+  | .repaired => (match value with | .bool false => true | _ => false)
+
 /-- which arm of the `if key == … elif …` chain of the negative loop a keyword selects -/
 inductive Arm where
   | enum | const | type | properties | patternProperties | items | pattern | format | maximum | minimum
@@ -831,13 +916,13 @@ def armOf (key : String) : Arm :=
 /-- one iteration of the negative loop of cover_schema_iter (inside `_ignore_unfixable(), ctx.at(key)`: `ctx` is
     the context already extended by the key);
     `vx`: the exclusive-bound site (repaired: the draft-4 booleans are not emitted as values) -/
-def negArmTag (rec : Ctx → Json → Gen) (vx : Variant) (ctx : Ctx) (kvs : List (String × Json)) (types : List String)
+def negArmTag (rec : Ctx → Json → Gen) (vx va vt : Variant) (ctx : Ctx) (kvs : List (String × Json)) (types : List String)
     (tag : Arm) (value : Json) : Gen :=
   match tag with
   | .enum => negEnum ctx value false
   | .const => negEnum ctx (.arr [value]) true
   | .type => negType ctx value
-  | .properties => needTemplate kvs fun t => negProperties rec ctx t value
+  | .properties => needTemplate vt kvs fun t => negProperties rec ctx t value
   | .patternProperties => Gen.unsupported
   | .items => (match value with | .obj _ => negItems rec ctx value | _ => Gen.nil)
   | .pattern =>
@@ -914,11 +999,12 @@ def negArmTag (rec : Ctx → Json → Gen) (vx : Variant) (ctx : Ctx) (kvs : Lis
           | .arr xs => Gen.emit [GV.neg (.arr (xs ++ xs)) .nonUnique ctx.path]
           | _ => Gen.unsupported
     else Gen.nil
-  | .required => needTemplate kvs fun t => negRequired ctx t value
+  | .required => needTemplate vt kvs fun t => negRequired ctx t value
   | .additionalProperties =>
-    if !(truthy value) && !(hasKey kvs "pattern") &&
+    -- site `va` (F35): as found `not value` (the empty schema `{}` is falsy); repaired `value is False`
+    if addPropsForbidden va value && !(hasKey kvs "pattern") &&
        (match getK kvs "type" with | none => true | some (.str "object") => true | _ => false) then
-      needTemplate kvs fun t =>
+      needTemplate vt kvs fun t =>
         match t with
         | .obj tkvs => Gen.emit [GV.neg (.obj (setKey UNKNOWN_KEY (.num 42 0) tkvs)) .unexpectedProperties ctx.path]
         | _ => Gen.unsupported
@@ -933,16 +1019,25 @@ def negArmTag (rec : Ctx → Json → Gen) (vx : Variant) (ctx : Ctx) (kvs : Lis
      | _ => Gen.unsupported)
   | .other => Gen.nil
 
-def negArm (rec : Ctx → Json → Gen) (vx : Variant) (ctx : Ctx) (kvs : List (String × Json)) (types : List String)
+def negArm (rec : Ctx → Json → Gen) (vx va vt : Variant) (ctx : Ctx) (kvs : List (String × Json)) (types : List String)
     (key : String) (value : Json) : Gen :=
-  negArmTag rec vx ctx kvs types (armOf key) value
+  negArmTag rec vx va vt ctx kvs types (armOf key) value
 
 /-! ## `_cover_positive_for_type` and `cover_schema_iter` -/
 
 structure Vs where
   zero : Variant    -- F6: `not maximum`
   excl : Variant    -- F7: exclusive bounds
+  cross : Variant   -- F6c: "Minimum value" / "Maximum value" emitted without looking at the opposite bound
+  strCross : Variant     -- F34: `_positive_string` boundary lengths emitted without looking at the opposite bound
+  addProps : Variant     -- F35: `additionalProperties` arm tests `not value`
+  tmplReq : Variant      -- F36: the template schema forgets required names that are not declared properties
+  minProps : Variant     -- F37: `_positive_object` combinations ignore `minProperties`
+  falseSchema : Variant  -- F40: the boolean schema `false` is covered like `true`
   deriving Repr
+
+def Vs.repaired : Vs := ⟨.repaired, .repaired, .repaired, .repaired, .repaired, .repaired, .repaired, .repaired⟩
+def Vs.asFound : Vs := ⟨.asFound, .asFound, .asFound, .asFound, .asFound, .asFound, .asFound, .asFound⟩
 
 def subSchemas? (kvs : List (String × Json)) (k : String) : Option (List Json) :=
   match getK kvs k with
@@ -974,10 +1069,10 @@ def positiveBlock (rec : Ctx → Json → Gen) (vs : Vs) (ctx : Ctx) (kvs : List
           | some t =>
             if t == "null" then Gen.emit [GV.pos .null .nullValue]
             else if t == "boolean" then Gen.emit [GV.pos (.bool true) .validBoolean, GV.pos (.bool false) .validBoolean]
-            else if t == "string" then positiveString pctx kvs
-            else if t == "integer" || t == "number" then positiveNumber vs.zero vs.excl kvs
+            else if t == "string" then positiveString vs.strCross pctx kvs
+            else if t == "integer" || t == "number" then positiveNumber vs.zero vs.excl vs.cross kvs
             else if t == "array" then positiveArray kvs template
-            else if t == "object" then positiveObject (rec pctx) kvs template
+            else if t == "object" then positiveObject vs.minProps (rec pctx) kvs template
             else Gen.nil
     Gen.seq descents (Gen.seq allOfPart own)
   | _, _, _ => Gen.unsupported
@@ -985,7 +1080,7 @@ def positiveBlock (rec : Ctx → Json → Gen) (vs : Vs) (ctx : Ctx) (kvs : List
 /-- `_cover_positive_for_type` -/
 def positiveForType (rec : Ctx → Json → Gen) (vs : Vs) (ctx : Ctx) (kvs : List (String × Json)) (ty : Option String) : Gen :=
   if ty == some "object" || ty == some "array" then
-    match templateSchema TFUEL kvs (ty.getD "") with
+    match templateSchema vs.tmplReq TFUEL kvs (ty.getD "") with
     | none => Gen.unsupported
     | some ts =>
       Gen.ask (.schema ts) fun template =>
@@ -1001,13 +1096,16 @@ def coverCore (rec : Ctx → Json → Gen) (vs : Vs) (ctx : Ctx) (kvs : List (St
   Gen.seq (if types.isEmpty then Gen.guard (positiveForType rec vs ctx kvs none) else Gen.nil)
     (Gen.seq (Gen.forEach types fun ty => Gen.guard (positiveForType rec vs ctx kvs (some ty)))
       (if ctx.neg then
-         Gen.scopedTmpl (Gen.forEach kvs fun (key, value) => Gen.guard (negArm rec vs.excl (ctx.at key) kvs types key value))
+         Gen.scopedTmpl (Gen.forEach kvs fun (key, value) => Gen.guard (negArm rec vs.excl vs.addProps vs.tmplReq (ctx.at key) kvs types key value))
        else Gen.nil))
 
 /-- the body of cover_schema_iter with the recursive call as a parameter (uses the current `seen` set) -/
 def coverBody (rec : Ctx → Json → Gen) (vs : Vs) (ctx : Ctx) (schema : Json) : Gen :=
   match schema with
-  | .bool _ => coverCore rec vs ctx [] ["null", "boolean", "string", "number", "array", "object"]
+  | .bool b =>
+    -- site `falseSchema` (F40): repaired, `false` yields nothing (no positive value exists, no keyword to negate)
+    if !b && vs.falseSchema == .repaired then Gen.nil
+    else coverCore rec vs ctx [] ["null", "boolean", "string", "number", "array", "object"]
   | .obj kvs =>
     if hasKey kvs "examples" && hasKey kvs "properties" then Gen.unsupported    -- push_examples_to_properties mutates
     else match typesOf? kvs with
